@@ -120,6 +120,18 @@ theorem eval_split (pre post : List Decl) (l : Nat) (t : ArcTy) (a b : Expr) :
 theorem eval_embed (e : Expr) : eval (.structL [.embed e]) = eval e := by
   simp [eval_structL_cons, evalDecl]
 
+/-! ### list literals -/
+
+theorem evalList_congr (pre post : List Expr) (a a' : Expr) (h : eval a = eval a') :
+    evalList (Exprs.ofList (pre ++ a :: post)) = evalList (Exprs.ofList (pre ++ a' :: post)) := by
+  induction pre with
+  | nil => simp [Exprs.ofList, evalList, h]
+  | cons p pre ih => simp [Exprs.ofList, evalList, ih]
+
+theorem eval_listL_congr (pre post : List Expr) (a a' : Expr) (h : eval a = eval a') :
+    eval (.listL (pre ++ a :: post)) = eval (.listL (pre ++ a' :: post)) := by
+  simp [Expr.listL, eval, evalList_congr pre post a a' h]
+
 /-! ### the general statement -/
 
 theorem eval_rearr {e e' : Expr} (h : Rearr e e') : eval e = eval e' := by
@@ -135,6 +147,7 @@ theorem eval_rearr {e e' : Expr} (h : Rearr e e') : eval e = eval e' := by
   | embed_congr pre post _ ih =>
     rw [eval_structL_mid, eval_structL_mid]
     simp [evalDeclsL_append, evalDecl, ih]
+  | list_congr pre post _ ih => exact eval_listL_congr pre post _ _ ih
   | perm h => exact eval_structL_perm h
   | and_comm a b => simp [eval, unify_comm (eval a)]
   | and_assoc a b c => simp [eval, unify_assoc]
